@@ -82,3 +82,14 @@ Definition market_dem_terms (c issuer : string) (others : list sector) (start : 
 (** the market's SUP_<code> equation after the call: defined by the last issuer met, else as before *)
 Definition market_sup_after (c issuer : string) (others : list sector) (before : option eqn) : option eqn :=
   sup_after (money_issuer issuer) c others before.
+
+(** Variant for an implementation that refuses to generate equations unless exactly one sector of
+    the zone is the issuer (proposed fix D22: LogicError, raised after DEM_<code> has been re-added). *)
+Definition money_generate_checked (c issuer : string) (mk : nat) (z : zone) : result zone :=
+  match split_sid mk z with
+  | None => Err OutOfModel
+  | Some (_, m, _) =>
+      if hasF m then Err OutOfModel
+      else if Nat.eqb (List.length (filter (money_issuer issuer) z)) 1 then money_generate c issuer mk z
+      else Err LogicError
+  end.
